@@ -211,6 +211,6 @@ EXPORT void reim_to_znx64_simple(uint32_t m, double divisor, uint32_t log2bound,
     if (!init_reim_to_znx64_precomp(&p, m, divisor, log2bound)) abort();
     prev_log2bound = log2bound;
   }
-  SPQLIOS_VERIF_EVENT(2, 6, 0, p.m, *(int64_t*)&p.divisor, prev_log2bound);
+  SPQLIOS_VERIF_EVENT(2, 6, 0, p.m, spqlios_verif_dbits(p.divisor), prev_log2bound);
   p.function(&p, r, a);
 }
